@@ -1,0 +1,76 @@
+//go:build verif
+
+package tbtc
+
+import (
+	"context"
+	"math/big"
+
+	"github.com/keep-network/keep-core/pkg/chain"
+	"github.com/keep-network/keep-core/pkg/protocol/group"
+	"github.com/keep-network/keep-core/pkg/protocol/inactivity"
+	"github.com/keep-network/keep-core/pkg/tecdsa/dkg"
+)
+
+// Thin exported wrappers used by the /verif harness (property C47). They build
+// the submitters with the production constructors and call the production
+// methods. No behaviour of their own.
+
+// VerifC47SubmitDkgResult runs dkgResultSubmitter.SubmitResult.
+func VerifC47SubmitDkgResult(
+	ctx context.Context,
+	chain Chain,
+	groupParameters *GroupParameters,
+	groupSelectionResult *GroupSelectionResult,
+	waitForBlockFn func(context.Context, uint64) error,
+	memberIndex group.MemberIndex,
+	result *dkg.Result,
+	signatures map[group.MemberIndex][]byte,
+) error {
+	return newDkgResultSubmitter(
+		logger,
+		chain,
+		groupParameters,
+		groupSelectionResult,
+		waitForBlockFn,
+	).SubmitResult(ctx, memberIndex, result, signatures)
+}
+
+// VerifC47ExecuteDkgValidation runs dkgExecutor.executeDkgValidation on an
+// executor holding the given chain, operator ID function and wait function.
+func VerifC47ExecuteDkgValidation(
+	tbtcChain Chain,
+	operatorIDFn func() (chain.OperatorID, error),
+	waitForBlockFn func(context.Context, uint64) error,
+	seed *big.Int,
+	submissionBlock uint64,
+	result *DKGChainResult,
+	resultHash [32]byte,
+) {
+	de := &dkgExecutor{
+		chain:          tbtcChain,
+		operatorIDFn:   operatorIDFn,
+		waitForBlockFn: waitForBlockFn,
+	}
+	de.executeDkgValidation(seed, submissionBlock, result, resultHash)
+}
+
+// VerifC47SubmitInactivityClaim runs inactivityClaimSubmitter.SubmitClaim.
+func VerifC47SubmitInactivityClaim(
+	ctx context.Context,
+	chain Chain,
+	groupParameters *GroupParameters,
+	groupMembers []uint32,
+	waitForBlockFn func(context.Context, uint64) error,
+	memberIndex group.MemberIndex,
+	claim *inactivity.ClaimPreimage,
+	signatures map[group.MemberIndex][]byte,
+) error {
+	return newInactivityClaimSubmitter(
+		logger,
+		chain,
+		groupParameters,
+		groupMembers,
+		waitForBlockFn,
+	).SubmitClaim(ctx, memberIndex, claim, signatures)
+}
